@@ -35,13 +35,13 @@ Theorem C40_no_underscore : forall m, no_us m -> parse m = (m, 0).
 Proof. exact parse_no_us. Qed.
 Print Assumptions C40_no_underscore.
 
-(* Totality: the model of extractArgument contains no operation that can panic (no index,
-   slice or conversion; Split/Join/Atoi are total) -- parse is a total function on all byte
-   strings. Absence of panics in the implementation on arbitrary strings (incl. invalid
-   UTF-8) is what the differential run observes. *)
-Theorem C40_total : forall msg, exists ty arg, parse msg = (ty, arg).
+(* REMARK, not a theorem of the property: parse is a Gallina function, so it is total by
+   construction; the model of extractArgument contains no operation that can panic (no
+   index, slice or conversion; Split/Join/Atoi are total). The "never panics" clause for the
+   implementation therefore rests on the differential run (arbitrary byte strings incl.
+   invalid UTF-8, every call wrapped in recover), not on a proof. *)
+Remark C40_parse_is_a_total_function : forall msg, exists ty arg, parse msg = (ty, arg).
 Proof. intros msg. destruct (parse msg) as [ty arg]. exists ty, arg. reflexivity. Qed.
-Print Assumptions C40_total.
 
 (* Flood wait: for FLOOD_WAIT / FLOOD_PREMIUM_WAIT (number at any position) the timer is
    armed with exactly (n + 1) seconds, for every n whose nanosecond count fits int64. *)
@@ -52,10 +52,53 @@ Theorem C40_flood_wait : forall ws1 ws2 num n,
 Proof. exact flood_timer_shape. Qed.
 Print Assumptions C40_flood_wait.
 
-(* non-vacuity: the hypotheses are satisfiable, for both kinds, and compute *)
 Definition s_FLOOD := [70; 76; 79; 79; 68].
 Definition s_WAIT := [87; 65; 73; 84].
 Definition s_PREMIUM := [80; 82; 69; 77; 73; 85; 77].
+
+(* FloodWait's control flow over any environment (fake-clock advances of any sizes, context
+   cancellation): for a flood-wait message with argument n the timer is armed with (n+1) s and
+   (a) while less than (n+1) s have elapsed and the context lives, FloodWait is still blocked;
+   (b) it returns "retry" at exactly the first step at which (n+1) s have elapsed;
+   (c) it returns the context error at a cancellation that comes first;
+   and for every other error it returns at once without arming a timer. *)
+Section FloodRun.
+  Variables (ws1 ws2 : list (list Z)) (num : list Z) (n : Z).
+  Hypothesis W1 : Forall is_word ws1.
+  Hypothesis W2 : Forall is_word ws2.
+  Hypothesis N : is_num num n.
+  Hypothesis T : is_flood_type (join (ws1 ++ ws2)) = true.
+  Hypothesis N0 : 0 <= n.
+  Hypothesis B : (n + 1) * second_ns < 2 ^ 63.
+
+  Theorem C40_flood_wait_blocks : forall dts, Forall (fun dt => 0 <= dt) dts -> zsum dts < (n + 1) * second_ns ->
+    flood_wait_run (join (ws1 ++ [num] ++ ws2)) (advances dts) = (Some ((n + 1) * second_ns), None).
+  Proof. exact (run_blocks ws1 ws2 num n W1 W2 N T N0 B). Qed.
+  Theorem C40_flood_wait_retries : forall dts dt rest, Forall (fun x => 0 <= x) dts ->
+    zsum dts < (n + 1) * second_ns -> (n + 1) * second_ns <= zsum dts + dt ->
+    flood_wait_run (join (ws1 ++ [num] ++ ws2)) (advances dts ++ FwAdvance dt :: rest) =
+    (Some ((n + 1) * second_ns), Some (Z.of_nat (length dts), FwRetry)).
+  Proof. exact (run_retries ws1 ws2 num n W1 W2 N T N0 B). Qed.
+  Theorem C40_flood_wait_cancelled : forall dts rest, Forall (fun x => 0 <= x) dts -> zsum dts < (n + 1) * second_ns ->
+    flood_wait_run (join (ws1 ++ [num] ++ ws2)) (advances dts ++ FwCancel :: rest) =
+    (Some ((n + 1) * second_ns), Some (Z.of_nat (length dts), FwCtxErr)).
+  Proof. exact (run_cancelled ws1 ws2 num n W1 W2 N T N0 B). Qed.
+End FloodRun.
+Print Assumptions C40_flood_wait_blocks.
+Print Assumptions C40_flood_wait_retries.
+Print Assumptions C40_flood_wait_cancelled.
+Theorem C40_not_flood_returns_at_once : forall msg steps, flood_timer msg = None ->
+  flood_wait_run msg steps = (None, Some (-1, FwNotFlood)).
+Proof. exact run_not_flood. Qed.
+Print Assumptions C40_not_flood_returns_at_once.
+
+(* boundary of C40_flood_wait made visible: beyond (n+1)*1e9 < 2^63 the int64 nanosecond
+   count wraps and the wait becomes negative, i.e. an immediate retry (FLOOD_WAIT_9223372037) *)
+Example C40_flood_wait_overflow_witness :
+  flood_timer (join ([s_FLOOD; s_WAIT] ++ [[57; 50; 50; 51; 51; 55; 50; 48; 51; 55]] ++ [])) = Some (-9223372035709551616).
+Proof. vm_compute. reflexivity. Qed.
+
+(* non-vacuity: the hypotheses are satisfiable, for both kinds, and compute *)
 Example C40_nonvacuous_flood :
   Forall is_word [s_FLOOD; s_WAIT] /\ is_num [48; 51; 48] 30 /\ is_flood_type (join ([s_FLOOD; s_WAIT] ++ [])) = true /\
   flood_timer (join ([s_FLOOD; s_WAIT] ++ [[48; 51; 48]] ++ [])) = Some 31000000000 /\
